@@ -151,7 +151,7 @@ def tickFS (fs : FS) (k : Nat) : FS :=
       (p', ⟨f.data, 0⟩)) }
 
 def wbIn (st : St) (b : Body) (chunks : List Bytes) (rend : ReaderEnd) (fail : WBFail) : WBIn :=
-  ⟨b.h, natDigits st.sfx, chunks, rend, fail, nowT⟩
+  ⟨b.h, natDigits st.sfx, chunks, rend, fail, nowT, (st.fs.get (blockPath b.h)).isSome⟩
 
 /-- where RLIMIT_FSIZE = limit makes a write of `chunks` fail -/
 def limitFail (chunks : List Bytes) (limit : Nat) : WBFail :=
@@ -238,20 +238,21 @@ def stepOp (st : St) (op : String) (last : Bool) : Option (List (St × Option St
     let st := st.note b
     let all := splitChunks chunk b.data
     if ja > all.length || jb > all.length then none
-    let hp (sfx : Nat) (chunks : List Bytes) (rend : ReaderEnd) (cancelled : Bool) : List Ev × Resp :=
+    let hp (sfx : Nat) (chunks : List Bytes) (rend : ReaderEnd) (cancelled existing : Bool) : List Ev × Resp :=
       handlePut (hashOf st) st.fs
-        ⟨b.h, b.data, nowT, none, [⟨b.h, natDigits sfx, chunks, rend, .none, nowT⟩], cancelled, false, st.full⟩
-    let fullA := hp st.sfx all .eof false
+        ⟨b.h, b.data, nowT, none, [⟨b.h, natDigits sfx, chunks, rend, .none, nowT, existing⟩], cancelled, false, st.full⟩
+    -- A reaches its open of the block path before B has renamed; B (if it gets that far) after A has
+    let fullA := hp st.sfx all .eof false (st.fs.get (blockPath b.h)).isSome
     if !(allPoints fullA.1).any (fun p => p.startsWith "WriteBlock:") then none
     let cmpLen := (compareEvs st.fs b.h).length
     let cutA := cmpLen + 3 + ja
     let cutB := cmpLen + 3 + jb
     let (rB, resB) : (List Ev × Resp) × String ←
-      if endS == "finish" then some (hp (st.sfx + 1) all .eof false, "200")
-      else if endS == "kill" then some (hp (st.sfx + 1) all .eof false, "")
+      if endS == "finish" then some (hp (st.sfx + 1) all .eof false true, "200")
+      else if endS == "kill" then some (hp (st.sfx + 1) all .eof false true, "")
       else if endS == "cancel" then
-        if jb < all.length then some (hp (st.sfx + 1) (all.take jb) .err true, "503")
-        else some (hp (st.sfx + 1) all .eof true, "503")
+        if jb < all.length then some (hp (st.sfx + 1) (all.take jb) .err true true, "503")
+        else some (hp (st.sfx + 1) all .eof true true, "503")
       else none
     let b2 := if endS == "kill" then [] else rB.1.drop cutB
     let evs := fullA.1.take cutA ++ rB.1.take cutB ++ fullA.1.drop cutA ++ b2
@@ -323,7 +324,7 @@ def stepOp (st : St) (op : String) (last : Bool) : Option (List (St × Option St
     let b ← parseBody bs
     let mode ← parseMode ms
     let st := st.note b
-    let r := untrashEvs st.fs b.h
+    let r := untrashEvs st.fs b.h nowT
     let (st2, killed, pts) := execMode st r.1 mode
     some [(st2, seg st2 (if killed then "killed" else if r.2 == .ok then "200" else "404") pts)]
   | ["empty", ms] => do
